@@ -1,12 +1,14 @@
 """C08 — binding parameters is specialisation."""
 import ast
 import collections
+import copy
 import itertools
 import random
 import signal
 
 from . import common as C
 from . import progs, shadow
+from . import c01_a2a as A2A
 
 PID = "C08"
 
@@ -98,6 +100,29 @@ def random_param_program(rng):
     return (f"def test({', '.join(allsig)}) -> Qint[2]:\n    return ({body}) if c else a", sweeps)
 
 
+def ser_pv(v):
+    """A Python value given to bind() as a term of M_BindAst.pv (what to_val sees)."""
+    if hasattr(v, "__iter__") and not isinstance(v, (str, bytes)):
+        return "(PSeq %s)" % A2A.c_list([ser_pv(x) for x in v])
+    return f"(PCst {A2A.Ser().cst(v)})"
+
+
+def ser_kw(kw):
+    return A2A.c_list([f"({A2A.c_str(k)}, {ser_pv(v)})" for k, v in kw.items()])
+
+
+def ser_fundef(fd):
+    """A FunctionDef as a term of M_A2A.fundef, annotations as written (no ReplaceTypeAnn)."""
+    a = fd.args
+    if a.vararg or a.kwarg or a.kwonlyargs or a.posonlyargs or a.defaults or a.kw_defaults:
+        raise A2A.Unmodelled("argument kinds / defaults")
+    sr = A2A.Ser()
+    args = A2A.c_list([f"({A2A.c_str(x.arg)}, {'None' if x.annotation is None else '(Some %s)' % sr.exp(x.annotation)})"
+                       for x in a.args])
+    ret = "None" if fd.returns is None else f"(Some {sr.exp(fd.returns)})"
+    return f"(mkfun {args} {ret} {sr.stmts(fd.body)})"
+
+
 def task(job):
     from qlasskit import qlassf
     from .ser import exprs_to_ir, ir_eval
@@ -116,6 +141,23 @@ def task(job):
             return dict(status="not-parameterised")
         dump0 = ast.dump(u.fun_ast)
         params0 = dict((k, ast.dump(v)) for k, v in u.parameters.items())
+        # correspondence with M_BindAst.bind_ast: the unbound function, and per bind the AST the real
+        # bind() hands to the translator (captured by wrapping _do_translate on this object)
+        captured = []
+        real_translate = u._do_translate
+
+        def _capture(fun_ast, original_f):
+            captured.append(copy.deepcopy(fun_ast))
+            return real_translate(fun_ast, original_f)
+        u._do_translate = _capture
+        out["bind_cases"] = []
+        out["bind_unmodelled"] = collections.Counter()
+        try:
+            fun_coq = ser_fundef(u.fun_ast.body[0])
+        except A2A.Unmodelled as e:
+            fun_coq = None
+            out["bind_unmodelled"][str(e)[:60]] += 1
+        out["fun_coq"] = fun_coq
         first_exprs = {}
         held = {}
         for bi, kw in enumerate(bindings):
@@ -129,6 +171,7 @@ def task(job):
                     obj = held.setdefault(pk, [])
                     obj[:] = [list(x) if isinstance(x, list) else x for x in pv]
                     passed[pk] = obj
+            del captured[:]
             try:
                 qf = u.bind(**passed)
             except progs._Timeout:
@@ -138,6 +181,12 @@ def task(job):
                 out.setdefault("reject_why", []).append(f"{type(e).__name__}: {e}"[:120])
                 continue
             finally:
+                if fun_coq is not None:
+                    try:
+                        obs = "BRaise" if not captured else f"(BOk {ser_fundef(captured[0].body[0])})"
+                        out["bind_cases"].append((repr(kw), ser_kw(kw), obs))
+                    except A2A.Unmodelled as e:
+                        out["bind_unmodelled"][str(e)[:60]] += 1
                 if ast.dump(u.fun_ast) != dump0 or dict((k, ast.dump(v)) for k, v in u.parameters.items()) != params0:
                     out["fails"].append(dict(kind="bind() altered the unbound object", binding=repr(kw)))
                     dump0 = ast.dump(u.fun_ast)
@@ -200,6 +249,7 @@ def task(job):
             for bad in (dict((k, v) for k, v in kw.items() if k != k0), dict(kw, zz_unknown=1)):
                 if len(bad) == len(kw):
                     continue
+                del captured[:]
                 try:
                     u.bind(**bad)
                     out["fails"].append(dict(kind="bind() accepted a wrong parameter set", binding=repr(bad)))
@@ -207,6 +257,12 @@ def task(job):
                     raise
                 except BaseException:
                     pass
+                if fun_coq is not None:
+                    try:
+                        obs = "BRaise" if not captured else f"(BOk {ser_fundef(captured[0].body[0])})"
+                        out["bind_cases"].append((repr(bad), ser_kw(bad), obs))
+                    except A2A.Unmodelled as e:
+                        out["bind_unmodelled"][str(e)[:60]] += 1
         return out
     except progs._Timeout:
         return dict(status="timeout")
@@ -254,6 +310,46 @@ def run(tier, seed):
     programs = [(p + (None,))[:3] for p in programs]
     jobs = [dict(src=s, bindings=bindings_for(sw, rng), defs=dfs) for s, sw, dfs in programs]
     res = progs.run_pool(task, jobs)
+    # ---- correspondence of M_BindAst.bind_ast with UnboundQlassf.bind (exact, inside coqc) ----
+    bcases = []          # (job index, binding repr, coq case)
+    bind_unmod = collections.Counter()
+    defs_txt = []
+    for ji, (job, r) in enumerate(zip(jobs, res)):
+        if r.get("status") != "ok":
+            continue
+        for why, n in (r.get("bind_unmodelled") or {}).items():
+            bind_unmod[why] += n
+        if not r.get("fun_coq"):
+            continue
+        defs_txt.append(f"Definition f{ji} : fundef := {r['fun_coq']}.")
+        for (kwrepr, kwc, obs) in r["bind_cases"]:
+            bcases.append((ji, kwrepr, f"({len(bcases)}%N, (f{ji}, {kwc}, {obs}, false))"))
+        bcases.append((ji, "<from_function: has parameters>", f"({len(bcases)}%N, (f{ji}, [], BRaise, true))"))
+    files = []
+    per = 150
+    for ci in range(0, len(bcases), per):
+        chunk = bcases[ci:ci + per]
+        used = sorted(set(j for j, _, _ in chunk))
+        dtxt = "\n".join(d for d in defs_txt if int(d.split()[1][1:]) in used)
+        files.append((f"bindast_{ci}", C.COQ_HEADER + "From Coq Require Import String ZArith.\nFrom QV Require Import M_A2A M_BindAst Chk_BindAst.\n"
+                      "Local Open Scope string_scope.\n" + dtxt + "\n"
+                      "Definition chk1 (c : fundef * list (string * pv) * bobs * bool) : bool :=\n"
+                      "  match c with (f, kw, o, u) => if u then chk_unbound f true else chk_bind f kw o end.\n"
+                      "Eval vm_compute in (failing chk1 %s).\n" % A2A.c_list([c for _, _, c in chunk])))
+    bres = C.run_cases(PID, files) if files else {}
+    bind_diff, bind_err = [], []
+    for name, (rc, so, se) in bres.items():
+        if rc != 0:
+            bind_err.append(dict(file=name, error=(so + se)[-600:]))
+            continue
+        for k in C.parse_N_list(C.parse_results(so)[0]):
+            ji, kwrepr, _ = bcases[k]
+            bind_diff.append(dict(source=jobs[ji]["src"], binding=kwrepr))
+    if bind_err:
+        chk.broken("the bind_ast correspondence file did not evaluate", bind_err[:3])
+    elif bind_diff:
+        chk.broken("M_BindAst.bind_ast and UnboundQlassf.bind produce different function definitions "
+                   "(or from_function and the model disagree on which functions have parameters)", bind_diff[:6])
     known = C.known_findings(PID)
     status = collections.Counter()
     tot = collections.Counter()
@@ -285,7 +381,8 @@ def run(tier, seed):
              "shift amounts, list constants, indices; parameters at any position) + seeded random ones; each unbound object is bound up to 11 "
              "times (value sweep, both keyword orders, earlier values again); every bound function is compared on ALL remaining inputs with "
              "the unbound source called with the parameters set (CPython on typed shadow values); fun_ast and parameters dumped before/after each bind",
-        binds=tot["binds"], binds_rejected=tot["rejected"], inputs_exact=tot["exact"], inputs_wrapped=tot["wrapped"],
+        binds=tot["binds"], binds_rejected=tot["rejected"],
+        bind_ast_cases_compared_in_coqc=len(bcases), bind_ast_differences=len(bind_diff), bind_ast_unmodelled=dict(bind_unmod), inputs_exact=tot["exact"], inputs_wrapped=tot["wrapped"],
         inputs_without_reference=tot["unsupported"], status=dict(status), traces_validated_against_impl=tot["evaluated"], exhaustive=False)
     chk.samples = [dict(source=jobs[0]["src"], bindings=[dict(b) for b in jobs[0]["bindings"]]),
                    dict(source=jobs[-1]["src"], bindings=[dict(b) for b in jobs[-1]["bindings"][:3]])]
